@@ -462,9 +462,10 @@ Section Copy.
   Definition seen (dst : list (bt * N)) (snaps : list tree) : list (bt * N) :=
     map (fun t => (Tree, tid t)) snaps ++ flat_map (flat_map reach_node) (walked dst snaps).
   (* of those: ids not in the destination's TYPED index, and known to the source index
-     (filter_map on index.get_data / get_tree) *)
+     (filter_map on index.get_data / get_tree: ids the source does not know are skipped silently —
+     Extracted.copy_skips_ids_unknown_to_source, read from the source) *)
   Definition needed (src dst : list (bt * N)) (snaps : list tree) : list (bt * N) :=
-    filter (fun b => negb (has dst b) && has src b) (seen dst snaps).
+    filter (fun b => negb (has dst b) && (if copy_skips_ids_unknown_to_source then has src b else true)) (seen dst snaps).
   (* data blobs first, then tree blobs *)
   Definition copy_order (l : list (bt * N)) : list (bt * N) :=
     filter (fun b => bt_eqb (fst b) Data) l ++ filter (fun b => bt_eqb (fst b) Tree) l.
